@@ -22,7 +22,9 @@ import (
 	"io"
 )
 
-type emptyCursor struct{}
+// emptyCursor serves a request while no partition matches; it remembers the request's query and position so
+// that the NextQueryRequest built from Release() still asks the same question
+type emptyCursor struct{ st State }
 
 var emptyCur emptyCursor
 
